@@ -16,7 +16,7 @@ func init() {
 			"(pre-before-post-after) submit runs a node's pre-handler before launching it and stores its result as the task input; waitOne runs the post-handler after collecting the task, only on success, and stores its result as the task output; " +
 			"(per-run) the state generator is invoked only inside the per-run context literal and returns a fresh object; the holder (state + mutex) put into the context is allocated by that very invocation, and the literal writes nothing captured from compile; " +
 			"(gate-exact) the pre-/post-handler calls run under exactly the expected conditions (handler present, task successful / not resumed) — any further conjunct is reported; " +
-			"(survives) on both restore arms the checkpointed state is placed in the context whenever it is non-nil — no further condition — after the caller's state modifier ran; both save sites record it; " +
+			"(survives) on both restore arms the checkpointed state is placed in the context whenever it is non-nil — no further condition — after the caller's state modifier ran; both save sites record it, and only when the graph owns a state (a stateless graph nested in a stateful one must not save the parent's state as its own); " +
 			"(state-required) a node with state handlers on a graph without state is rejected.",
 		decided:    []string{"lock-region", "pre-before-post-after", "gate-exact", "per-run", "survives", "state-required"},
 		notDecided: []string{"lost-update freedom inside user handlers", "that user handlers do not leak the state pointer", "fairness/ordering between handlers of parallel nodes"},
